@@ -140,7 +140,15 @@ func c12Child(a []string) {
 	case 3:
 		args = []any{slog.Int("k", 1)}
 	}
-	f(l, context.Background(), arg, variant, string(msgb), args)
+	// … nor has the context: a logger with registered context keys, given a context without them or no context at all
+	ctx := context.Background()
+	if via%4 == 2 {
+		l.SetContextKeys("c12key", 12)
+		if via%8 == 6 {
+			ctx = nil
+		}
+	}
+	f(l, ctx, arg, variant, string(msgb), args)
 	os.Stdout.WriteString("RETURNED\n")
 	os.Exit(0)
 }
@@ -160,6 +168,12 @@ func c12Neg(a []string) {
 		for _, L := range []int{6, 8, 0} {
 			slog.SetLevelOutputWidth(map[int]int{6: 5, 8: 4, 0: 3}[L])
 			l := c12Setup(recv, L, flags, a[1], L)
+			cx := ctx
+			if L == 6 {
+				// the most admitting logger has context keys registered and is given no context at all
+				l.SetContextKeys("c12key", 12)
+				cx = nil
+			}
 			eps := loggerEPs
 			if recv == "p" {
 				eps = pkgEPs
@@ -185,7 +199,7 @@ func c12Neg(a []string) {
 						variant = 1
 					}
 					fmt.Printf("CALL %s %s %d %d %d\n", recv, name, arg, variant, L)
-					f(l, ctx, arg, variant, "negative", nil)
+					f(l, cx, arg, variant, "negative", nil)
 					fmt.Println("ACK")
 				}
 			}
